@@ -453,7 +453,8 @@ class Inliner:
             mapping[nm] = tag + nm
             pre.append(ast.Assign(targets=[ast.Name(id=tag + nm, ctx=ast.Store())], value=v))
         for nm in local:
-            mapping.setdefault(nm, tag + nm)
+            if nm not in consts:                    # constant arguments are substituted below, under the parameter's own name
+                mapping.setdefault(nm, tag + nm)
         body = [copy.deepcopy(s) for s in fn.body if not (isinstance(s, ast.Expr) and isinstance(s.value, ast.Constant))]
         body = [_Rename(mapping).visit(s) for s in body]
         if consts:
@@ -821,4 +822,114 @@ def inline_private_helpers(tree, module_name=None):
     for c in inl.cls_funcs:
         inl.cls_funcs[c] = {k: v for k, v in inl.cls_funcs[c].items() if k not in keep}
     hoist_helper_calls(tree, inl)
-    return inl.run()
+    n = inl.run()
+    if n:
+        forward_accumulators(tree)
+    return n
+
+
+def forward_accumulators(tree):
+    """After inlining a helper that builds a list and returns it into `R.extend(<helper call>)`, the block reads
+
+        ACC = []
+        ...  ACC.append(x) / ACC.extend(xs) ...  H = ACC ...
+        R.extend(H)
+
+    with ACC touched only as the receiver of append/extend statements and as the value of `H = ACC`, H used only in the closing
+    `R.extend(H)`, R a local list of the function (bound by `R = []`) that the statements in between do not mention, and no `try`
+    in the function.  The pieces then reach R in the same order if they are appended to R directly: ACC is replaced by R, the
+    bindings and the closing extend are dropped.  (An exception in between leaves R partly extended, but R is a local that dies
+    with the frame.)  Returns the number of accumulators forwarded."""
+    total = 0
+    for fn in [n for n in ast.walk(tree) if isinstance(n, (ast.FunctionDef, ast.AsyncFunctionDef))]:
+        if any(isinstance(x, ast.Try) for x in ast.walk(fn)):
+            continue
+        local_lists = {st.targets[0].id for st in ast.walk(fn) if isinstance(st, ast.Assign) and len(st.targets) == 1 and
+                       isinstance(st.targets[0], ast.Name) and isinstance(st.value, ast.List) and not st.value.elts}
+        for blk in _blocks_of(fn):
+            i = 0
+            while i < len(blk):
+                st = blk[i]
+                if not (isinstance(st, ast.Assign) and len(st.targets) == 1 and isinstance(st.targets[0], ast.Name) and
+                        isinstance(st.value, ast.List) and not st.value.elts):
+                    i += 1
+                    continue
+                acc = st.targets[0].id
+                # the closing statement: R.extend(H) / R.extend(ACC) later in the same block
+                close = None
+                for j in range(i + 1, len(blk)):
+                    c = blk[j]
+                    if isinstance(c, ast.Expr) and isinstance(c.value, ast.Call) and isinstance(c.value.func, ast.Attribute) and \
+                            c.value.func.attr == 'extend' and isinstance(c.value.func.value, ast.Name) and len(c.value.args) == 1 and \
+                            isinstance(c.value.args[0], ast.Name) and not c.value.keywords:
+                        close = j
+                        break
+                if close is None:
+                    i += 1
+                    continue
+                R, H = blk[close].value.func.value.id, blk[close].value.args[0].id
+                region = blk[i + 1:close]
+                ok = R in local_lists and R != acc
+                uses = [x for x in ast.walk(fn) if isinstance(x, ast.Name) and x.id == acc]
+                par = {}
+                for x in ast.walk(fn):
+                    for ch in ast.iter_child_nodes(x):
+                        par[ch] = x
+                aliases = []
+                for u in uses:
+                    up = par.get(u)
+                    if u is st.targets[0]:
+                        continue
+                    if isinstance(up, ast.Attribute) and up.attr in ('append', 'extend') and isinstance(par.get(up), ast.Call) and \
+                            par[up].func is up and isinstance(par.get(par[up]), ast.Expr):
+                        continue
+                    if isinstance(up, ast.Assign) and up.value is u and len(up.targets) == 1 and isinstance(up.targets[0], ast.Name) \
+                            and up.targets[0].id == H and H != acc:
+                        aliases.append(up)
+                        continue
+                    if H == acc and up is blk[close].value:
+                        continue
+                    ok = False
+                if H != acc:
+                    h_uses = [x for x in ast.walk(fn) if isinstance(x, ast.Name) and x.id == H]
+                    ok = ok and len(h_uses) == len(aliases) + 1 and bool(aliases)
+                in_region = {id(x) for s_ in region for x in ast.walk(s_)}
+                ok = ok and all(id(u) in in_region or u is st.targets[0] or (H == acc and par.get(u) is blk[close].value) for u in uses)
+                ok = ok and not any(isinstance(x, ast.Name) and x.id == R for s_ in region for x in ast.walk(s_))
+                ok = ok and not any(isinstance(x, (ast.FunctionDef, ast.Lambda, ast.ClassDef)) for s_ in region for x in ast.walk(s_))
+                if not ok:
+                    i += 1
+                    continue
+                alias_ids = {id(a) for a in aliases}
+
+                class _F(ast.NodeTransformer):
+                    def visit_Assign(self, a):
+                        if id(a) in alias_ids:
+                            return ast.copy_location(ast.Pass(), a)
+                        return self.generic_visit(a)
+
+                    def visit_Name(self, n):
+                        if n.id == acc:
+                            return ast.copy_location(ast.Name(id=R, ctx=n.ctx), n)
+                        return n
+                new_region = [_F().visit(s_) for s_ in region]
+                blk[i:close + 1] = new_region
+                total += 1
+    if total:
+        ast.fix_missing_locations(tree)
+    return total
+
+
+def _blocks_of(fn):
+    out = []
+    stack = [fn]
+    while stack:
+        x = stack.pop()
+        for f in ('body', 'orelse', 'finalbody'):
+            b = getattr(x, f, None)
+            if isinstance(b, list) and b and isinstance(b[0], ast.stmt):
+                out.append(b)
+                stack.extend(b)
+        for h in getattr(x, 'handlers', []) or []:
+            stack.append(h)
+    return out
